@@ -224,8 +224,11 @@ ErrViol12(e, r) == IF e.pp = "C12" /\ r.k \in FormatErr THEN {<<"C12", "error_on
 \* C19: an owned record survives serialisation
 SerdeViol(a) ==
   IF "serde" \notin DOMAIN a THEN {}
-  ELSE IF a.serde.eq /\ a.serde.head = a.head /\ a.serde.seq = Concat(a.lines) /\ a.serde.qual = a.qual
-       THEN {} ELSE {<<"C19", "owned_record_roundtrip">>}
+  ELSE (IF a.serde.eq /\ a.serde.head = a.head /\ a.serde.seq = Concat(a.lines) /\ a.serde.qual = a.qual
+        THEN {} ELSE {<<"C19", "owned_record_roundtrip">>})
+       \* the serialised form has the same fields whatever the content (a field left out when it is empty survives JSON, but
+       \* not a format that reads fields by position); nf_ref: the same count for a record whose fields are all non-empty
+       \cup (IF "nf" \notin DOMAIN a.serde \/ a.serde.nf = a.serde.nf_ref THEN {} ELSE {<<"C19", "serialised_shape_depends_on_content">>})
 
 \* ---------------------------------------------------------------- C18: allocation accounting
 MaxLines(batch) == IF batch = <<>> THEN 0 ELSE Max({Len(batch[i].lines) : i \in 1..Len(batch)})
